@@ -175,11 +175,11 @@ impl Stats {
                 self.samples.push(s);
             }
         }
-        for f in o.failures {
-            if self.failures.len() < MAX_FAILURES {
-                self.failures.push(f);
-            }
-        }
+        self.failures.extend(o.failures);
+        // keep the smallest failing cases (enumerations do not shrink)
+        self.failures.sort_by_key(|f| serde_json::to_string(&f.case).map(|s| (s.len(), s)).unwrap_or((0, String::new())));
+        self.failures.dedup_by_key(|f| serde_json::to_string(&f.case).unwrap_or_default());
+        self.failures.truncate(MAX_FAILURES);
         self.oracle_bugs.extend(o.oracle_bugs);
         self.notes.extend(o.notes);
         for p in o.exhaustive_parts {
@@ -344,6 +344,10 @@ impl Findings {
             }
         }
         f
+    }
+    pub fn load_cached() -> &'static Findings {
+        static CELL: std::sync::OnceLock<Findings> = std::sync::OnceLock::new();
+        CELL.get_or_init(Findings::load)
     }
     pub fn is_active(&self, prop: &str, id: &str) -> bool {
         self.active.iter().any(|(p, i, _)| p == prop && i == id)
